@@ -245,6 +245,231 @@ def zoned_section(chk, rng, quick):
 _ZROOT = []
 
 
+def components_section(chk, rng, quick):
+    """Component extraction (the last clause of the property): *-from-duration against the regenerated functions and the
+    F&O definition (Components.v), *-from-dateTime / -date / -time and timezone-from-* against the fields the lexical
+    form was written from (through the timeline offset in the model), for both XSD year numberings."""
+    from decimal import Decimal
+    from elementpath import ElementPathError, XPathContext
+    from elementpath.xpath2 import XPath2Parser
+    from elementpath.xpath31 import XPath31Parser
+    proved = chk.prove(['theories/Gen/C11Components.v', 'theories/C11/Components.v', 'theories/C11/ComponentsProofs.v'],
+                       'theories/C11/ComponentsProperties.v')
+    P10 = lambda: XPath31Parser()
+    P11 = lambda: XPath31Parser(xsd_version='1.1')
+
+    def ev(P, expr):
+        return list(P().parse(expr).select(XPathContext(root=_zroot())))
+
+    def us_of(v):     # a seconds value (int or Decimal) in microseconds, exact
+        q = Decimal(v) * 1000000
+        if q != q.to_integral_value():
+            raise ValueError(f'more than six fraction digits: {v!r}')
+        return int(q)
+
+    # ---- durations: non-normalised lexical forms
+    def rand_piece(hi):
+        return rng.choice([None, 0, 1, rng.randint(0, hi), rng.randint(0, hi * 40)])
+
+    dcases = []
+    fixed = [('duration', False, (1, 2, 3, 4, 5, 6, 700000)), ('duration', True, (1, 2, 3, 4, 5, 6, 700000)),
+             ('yearMonthDuration', True, (None, 14, None, None, None, None, 0)), ('dayTimeDuration', True, (None, None, None, 36, None, None, 0)),
+             ('dayTimeDuration', False, (None, None, None, None, 90, None, 0)), ('dayTimeDuration', True, (None, None, None, None, None, 3661, 500000)),
+             ('dayTimeDuration', True, (None, None, None, None, None, 0, 500000)), ('duration', False, (None, None, 0, None, None, None, 0)),
+             ('dayTimeDuration', False, (None, None, 1, None, None, 0, 1)), ('duration', True, (99999, 11, 400, 23, 59, 59, 999999)),
+             ('dayTimeDuration', False, (None, None, None, None, None, 10 ** 12, 0)), ('dayTimeDuration', True, (None, None, None, 24, None, None, 0)),
+             ('dayTimeDuration', False, (None, None, None, None, 60, None, 0)), ('yearMonthDuration', False, (None, 12, None, None, None, None, 0))]
+    for _ in range(150 if quick else 5000):
+        kind = rng.choice(['duration', 'duration', 'yearMonthDuration', 'dayTimeDuration'])
+        Y, Mo = (rand_piece(50), rand_piece(30)) if kind != 'dayTimeDuration' else (None, None)
+        D, H, Mi, S = (rand_piece(40), rand_piece(30), rand_piece(70), rand_piece(70)) if kind != 'yearMonthDuration' else (None,) * 4
+        f = rng.choice([0, 0, 500000, 1, 999999, 5000, 50, rng.randint(0, 999999)]) if S is not None else 0
+        if all(x is None for x in (Y, Mo, D, H, Mi, S)):
+            if kind == 'dayTimeDuration':
+                D = 0
+            else:
+                Y = 0
+        dcases.append((kind, rng.random() < 0.4, (Y, Mo, D, H, Mi, S, f)))
+    dcases[:0] = fixed
+
+    def dur_lex(kind, neg, pc):
+        Y, Mo, D, H, Mi, S, f = pc
+        t = ('-' if neg else '') + 'P'
+        t += ''.join(f'{v}{u}' for v, u in ((Y, 'Y'), (Mo, 'M'), (D, 'D')) if v is not None)
+        tt = ''.join(f'{v}{u}' for v, u in ((H, 'H'), (Mi, 'M')) if v is not None)
+        if S is not None:
+            tt += str(S) + (('.%06d' % f).rstrip('0') if f else '') + 'S'
+        return f"xs:{kind}('{t}{'T' + tt if tt else ''}')"
+
+    def totals(neg, pc):
+        Y, Mo, D, H, Mi, S, f = [x or 0 for x in pc]
+        months = 12 * Y + Mo
+        us = (((D * 24 + H) * 60 + Mi) * 60 + S) * 1000000 + f
+        return (-months, -us) if neg else (months, us)
+
+    model = core.run_coq_cases('C11', IMPORTS, [f'run_dur {Z(totals(n, pc)[0])} {Z(totals(n, pc)[1])}' for _, n, pc in dcases],
+                               chunk=500, tag='dur')
+    FN = ['years', 'months', 'days', 'hours', 'minutes', 'seconds']
+    for (kind, neg, pc), mo in zip(dcases, model):
+        chk.evaluations += 1
+        chk.count('components:duration')
+        lexd = dur_lex(kind, neg, pc)
+        desc = {'value': lexd, 'months': totals(neg, pc)[0], 'microseconds': totals(neg, pc)[1]}
+        try:
+            got = []
+            for fn in FN:
+                r = ev(P10, f'{fn}-from-duration({lexd})')
+                if len(r) != 1 or (fn != 'seconds' and (isinstance(r[0], bool) or not isinstance(r[0], int))) or \
+                        not isinstance(r[0], (int, Decimal)):
+                    chk.violation('impl-vs-spec', desc, {'function': fn + '-from-duration', 'result': repr(r)})
+                    got = None
+                    break
+                got.append(us_of(r[0]) if fn == 'seconds' else r[0])
+        except ElementPathError as e:
+            chk.violation('impl-vs-spec', desc, {'error': str(e)[:200]})
+            continue
+        except Exception as e:
+            chk.violation('impl-raised', desc, repr(e)[:200])
+            continue
+        if got is None:
+            continue
+        mi, ms = list(mo[0]), list(mo[1])
+        if got != mi:
+            chk.corr_fail.append((desc, got, mi))
+        if got != ms:
+            chk.violation('impl-vs-spec', desc, {'impl': got, 'spec (F&O components)': ms, 'model': mi})
+        chk.nontrivial.add(repr(('dur', kind, neg, pc)))
+    # the difference of two dateTimes is a duration of its own: its components recompose the elapsed time
+    for _ in range(20 if quick else 400):
+        chk.evaluations += 1
+        chk.count('components:of a dateTime difference')
+        a = (rng.randint(1, 3000), rng.randint(1, 12), rng.randint(1, 28), rng.randint(0, 86399))
+        b = (rng.randint(1, 3000), rng.randint(1, 12), rng.randint(1, 28), rng.randint(0, 86399))
+        la, lb = ["xs:dateTime('%04d-%02d-%02dT%02d:%02d:%02d')" % (v[0], v[1], v[2], v[3] // 3600, v[3] // 60 % 60, v[3] % 60) for v in (a, b)]
+        desc = {'expr': f'{la} - {lb}'}
+        try:
+            c = [ev(P10, f'{fn}-from-duration({la} - {lb})')[0] for fn in FN[2:]]
+            elapsed = (datetime.datetime(a[0], a[1], a[2]) - datetime.datetime(b[0], b[1], b[2])).days * 86400 + a[3] - b[3]
+            if ((c[0] * 24 + c[1]) * 60 + c[2]) * 60 + c[3] != elapsed or len({x > 0 for x in c if x}) > 1:
+                chk.violation('impl-vs-spec', desc, {'components': repr(c), 'elapsed seconds': elapsed})
+        except Exception as e:
+            chk.violation('impl-raised', desc, repr(e)[:200])
+        chk.nontrivial.add(repr(('durdiff', a, b)))
+
+    # ---- dateTime / date / time
+    def fmt_tz(t):
+        return '' if t is None else 'Z' if t == 0 else '%s%02d:%02d' % ('+' if t > 0 else '-', abs(t) // 60, abs(t) % 60)
+
+    YEARS = [-4713, -101, -100, -45, -5, -4, -2, -1, 1, 2, 4, 100, 1582, 1999, 2000, 2024, 9999, 10000, 10001, 12345, 99999]
+    TZS = [None, None, 0, 60, -300, 840, -840, 330, -210]
+    vcases = []
+    for _ in range(160 if quick else 5000):
+        y = rng.choice(YEARS + [rng.randint(-12000, 12000) or 1])
+        m = rng.randint(1, 12)
+        d = rng.choice([1, 28, mlen(astro(y), m), rng.randint(1, mlen(astro(y), m))])
+        h, mi, sec = rng.choice([(0, 0, 0), (23, 59, 59), (12, 30, 15), (rng.randint(0, 23), rng.randint(0, 59), rng.randint(0, 59))])
+        us = rng.choice([0, 0, 500000, 5000, 50, 1, 999999, 100000, 99999, rng.randint(0, 999999)])
+        vcases.append((rng.choice(['dateTime', 'dateTime', 'date', 'time']), rng.choice(['1.0', '1.1']), (y, m, d, h, mi, sec, us), rng.choice(TZS)))
+    vcases[:0] = [('dateTime', '1.0', (2000, 1, 1, 0, 0, 1, 5000), None), ('dateTime', '1.0', (2000, 1, 1, 0, 0, 1, 1), 0),
+                  ('date', '1.0', (-44, 3, 15, 0, 0, 0, 0), 60), ('date', '1.1', (-44, 3, 15, 0, 0, 0, 0), -300),
+                  ('dateTime', '1.1', (-1, 12, 31, 23, 59, 59, 999999), 840), ('time', '1.0', (1, 1, 1, 23, 59, 59, 50), -840)]
+
+    def lex_year(y, ver):
+        # y: XSD 1.0 numbering (no year zero).  In XSD 1.1 the lexical year 0000 is 1 BCE, -0001 is 2 BCE.
+        ly = y if (ver == '1.0' or y > 0) else y + 1
+        return ly, (('-%04d' % -ly) if ly < 0 else '%04d' % ly)
+
+    model = core.run_coq_cases('C11', IMPORTS, [f'run_dtc {Z(v[0])} {v[1]} {v[2]} {tod_of(v[3], v[4], v[5], v[6])}' for _, _, v, _ in vcases],
+                               chunk=500, tag='dtc')
+    for (kind, ver, v, t), mo in zip(vcases, model):
+        chk.evaluations += 1
+        chk.count('components:' + kind)
+        y, m, d, h, mi, sec, us = v
+        ly, ytext = lex_year(y, ver)
+        tod_text = '%02d:%02d:%02d' % (h, mi, sec) + (('.%06d' % us).rstrip('0') if us else '')
+        if kind == 'dateTime':
+            lexv = f"xs:dateTime('{ytext}-{m:02d}-{d:02d}T{tod_text}{fmt_tz(t)}')"
+            fns = ['year', 'month', 'day', 'hours', 'minutes', 'seconds']
+            want = [ly, m, d, h, mi, sec * 1000000 + us]
+        elif kind == 'date':
+            lexv = f"xs:date('{ytext}-{m:02d}-{d:02d}{fmt_tz(t)}')"
+            fns = ['year', 'month', 'day']
+            want = [ly, m, d]
+        else:
+            lexv = f"xs:time('{tod_text}{fmt_tz(t)}')"
+            fns = ['hours', 'minutes', 'seconds']
+            want = [h, mi, sec * 1000000 + us]
+        desc = {'value': lexv, 'xsd_version': ver}
+        P = P10 if ver == '1.0' else P11
+        try:
+            got = []
+            for fn in fns:
+                r = ev(P, f'{fn}-from-{kind}({lexv})')
+                if len(r) != 1 or not isinstance(r[0], (int, Decimal)) or isinstance(r[0], bool):
+                    raise ValueError(f'{fn}-from-{kind}: {r!r}')
+                got.append(us_of(r[0]) if fn == 'seconds' else r[0])
+            tzr = ev(P, f'timezone-from-{kind}({lexv})')
+            if t is None:
+                tz_ok = tzr == []
+            else:
+                tz_ok = len(tzr) == 1 and type(tzr[0]).__name__ == 'DayTimeDuration' and tzr[0].seconds == t * 60 and tzr[0].months == 0
+        except ElementPathError as e:
+            chk.violation('impl-vs-spec', desc, {'error': str(e)[:200]})
+            continue
+        except Exception as e:
+            chk.violation('impl-raised', desc, repr(e)[:200])
+            continue
+        # the model computes in the XSD 1.0 numbering; the lexical year of XSD 1.1 is shifted by one for BCE years
+        mfull = list(mo)
+        mfull[0] = ly if mfull[0] == y else mfull[0]
+        mwant = mfull if kind == 'dateTime' else mfull[:3] if kind == 'date' else mfull[3:]
+        if mwant != want:
+            chk.corr_fail.append((desc, want, mwant))
+        if got != want:
+            chk.violation('impl-vs-spec', desc, {'functions': fns, 'impl': got, 'own components of the value': want})
+        if not tz_ok:
+            chk.violation('impl-vs-spec', desc, {'timezone-from-' + kind: repr(tzr), 'timezone of the value (minutes)': t})
+        chk.nontrivial.add(repr(('dtc', kind, ver, v, t)))
+    # 24:00:00 is the first instant of the next day - also across the end of a month, of a year, of 1 BCE and of 9999
+    for _ in range(60 if quick else 1500):
+        chk.evaluations += 1
+        chk.count('components:dateTime with 24:00:00')
+        y = rng.choice([-2, -1, 1, 9998, 9999, 10000, -10000, 2000, rng.randint(-12000, 12000) or 1])
+        m = rng.choice([12, 12, 2, rng.randint(1, 12)])
+        d = rng.choice([mlen(astro(y), m), mlen(astro(y), m), rng.randint(1, mlen(astro(y), m))])
+        ver = rng.choice(['1.0', '1.1'])
+        if d < mlen(astro(y), m):
+            ny, nm, nd = y, m, d + 1
+        elif m < 12:
+            ny, nm, nd = y, m + 1, 1
+        else:
+            ny, nm, nd = (y + 1 if y != -1 else 1), 1, 1
+        lexv = f"xs:dateTime('{lex_year(y, ver)[1]}-{m:02d}-{d:02d}T24:00:00')"
+        desc = {'value': lexv, 'xsd_version': ver}
+        try:
+            got = [ev(P10 if ver == '1.0' else P11, f'{fn}-from-dateTime({lexv})')[0] for fn in ('year', 'month', 'day', 'hours', 'minutes', 'seconds')]
+            want = [lex_year(ny, ver)[0], nm, nd, 0, 0, 0]
+            if got != want:
+                chk.violation('impl-vs-spec', desc, {'impl': repr(got), 'components of the next day': want})
+        except Exception as e:
+            chk.violation('impl-raised' if not isinstance(e, ElementPathError) else 'impl-vs-spec', desc, repr(e)[:200])
+        chk.nontrivial.add(repr(('dt24', y, m, d, ver)))
+    # the empty sequence gives the empty sequence
+    for expr, want in [("year-from-dateTime(xs:dateTime('1999-12-31T24:00:00'))", [2000]), ("day-from-dateTime(xs:dateTime('1999-12-31T24:00:00'))", [1]),
+                       ("hours-from-dateTime(xs:dateTime('1999-12-31T24:00:00'))", [0]), ("hours-from-time(xs:time('24:00:00'))", [0]),
+                       ("year-from-date(())", []), ("seconds-from-time(())", []), ("timezone-from-dateTime(())", []), ("days-from-duration(())", []),
+                       ("seconds-from-duration(())", []), ("year-from-dateTime(xs:dateTime('-0001-12-31T24:00:00'))", [1])]:
+        chk.evaluations += 1
+        chk.count('components:fixed')
+        try:
+            got = ev(P10, expr)
+            if got != want:
+                chk.violation('impl-vs-spec', {'expr': expr}, {'impl': repr(got), 'spec': want})
+        except Exception as e:
+            chk.violation('impl-raised' if not isinstance(e, ElementPathError) else 'impl-vs-spec', {'expr': expr}, repr(e)[:200])
+        chk.nontrivial.add(expr)
+
+
 def _zroot():
     if not _ZROOT:
         import xml.etree.ElementTree as ET
@@ -505,6 +730,7 @@ def run(chk):
     # subtraction, min / max, index-of, distinct-values, deep-equal, adjust-*-to-timezone, for xs:dateTime / xs:date / xs:time,
     # years on both sides of 1 and of 9999, every context timezone incl. none
     zoned_section(chk, rng, quick)
+    components_section(chk, rng, quick)
     chk.rule = ('boundary years (+-1..5, 100/400 cycles, 9999/10000, BCE, 2^21) x boundary days x times of day, plus seeded random '
                 'dates; operations todelta / fromdelta / +-dayTimeDuration / +yearMonthDuration / constructor validity / '
                 'months2days for both XSD classes; comparisons and adjust-*-to-timezone across year boundaries and timezones '
